@@ -692,7 +692,7 @@ theorem isMergedTop_unique (rev : Bool) (P : List ID → Prop) (f g : List ID)
 /-- what an honest answer of `Search` is, for a topology `hot` / `cold` (replica scripts per shard) -/
 def Honest (hot cold : List (List Call)) (offset size : Nat) (rev : Bool) : Outcome → Prop
   | .err _ => True
-  | .panic => ∃ calls ∈ hot ++ cold, calls = []
+  | .panic => (∃ calls ∈ hot ++ cold, calls = []) ∨ limitWraps offset size = true
   | .ok ids _ nerr partialResp usedCold =>
     let tier := if usedCold then cold else hot
     (∃ full, IsMergedTop rev (fun l => ∃ s rep, Answered tier s rep l) full ∧
@@ -820,9 +820,11 @@ theorem search_ok_tier (hot cold : List (Nat × ShardRes)) (offset size : Nat) (
   | data qs p' =>
     rw [hs] at h
     simp only [finish] at h
-    injection h with h1 h2 h3 h4 h5
-    subst h5
-    exact ⟨qs, by simp [hs, h4], h1.symm⟩
+    split at h
+    · cases h
+    · injection h with h1 h2 h3 h4 h5
+      subst h5
+      exact ⟨qs, by simp [hs, h4], h1.symm⟩
   | err k =>
     rw [hs] at h
     cases k with
@@ -836,9 +838,11 @@ theorem search_ok_tier (hot cold : List (Nat × ShardRes)) (offset size : Nat) (
         | data qs p' =>
           rw [hc] at h
           simp only [finish] at h
-          injection h with h1 h2 h3 h4 h5
-          subst h5
-          exact ⟨qs, by simp [hc, h4], h1.symm⟩
+          split at h
+          · cases h
+          · injection h with h1 h2 h3 h4 h5
+            subst h5
+            exact ⟨qs, by simp [hc, h4], h1.symm⟩
     | tmf => simp [finish] at h
     | tmu => simp [finish] at h
     | other => simp [finish] at h
